@@ -55,7 +55,7 @@ var c14Kinds = []c14X{
 }
 
 var c14Timings = []string{"during", "pipelined", "after"}
-var c14Variants = []string{"one", "two", "chain3", "self", "idle", "with-traffic", "answered-with-protocol-error"}
+var c14Variants = []string{"one", "two", "chain3", "self", "idle", "with-traffic", "answered-with-protocol-error", "lower-tag"}
 
 func c14Cases() int { return len(c14Kinds) * len(c14Timings) * len(c14Variants) }
 
@@ -180,6 +180,12 @@ func runC14(rcx *RunCtx) {
 			}
 		}
 		switch variant {
+		case "lower-tag":
+			// the flush travels under a recycled tag that is numerically
+			// below the tag of the request it names (tag 1 was the attach's)
+			f := c.Send(1, &rc.Tflush{OldTag: tx})
+			fw.targetOf.Set(f, reqX)
+			flushes = append(flushes, f)
 		case "one", "with-traffic":
 			flushes = append(flushes, sendFlush(tx, reqX))
 		case "two":
@@ -273,7 +279,7 @@ func init() {
 		Run:  runC14,
 		Directed: func(string) int { return c14Cases() },
 		Quick:    32000, Thorough: 6000000, QuickSecs: 60, ThorSecs: 1200,
-		Rule:  fmt.Sprintf("directed: %d flushed request kinds (read, write, getattr, 3-component walk parked at component 2, rename parked in RenameAt, renameat parked in a Renamed notification, create, unlinkat, clunk parked in Close, walk onto a bound fid number parked in the replaced file's Close, readdir) x flush arrival {while parked, pipelined right behind, after completion} x {one flush, two flushes of the tag, chain of three, plus a self-flush, plus an idle-tag flush, plus unrelated traffic, plus flush and re-use of a tag that was answered from the protocol-error path}; random: the same dimensions drawn from the tape with varied schedules. Oracle: backend calls attributed to requests via the task that consumed the request's bytes; at the step an Rflush frame completes, no call of the flushed request is between enter and exit and none is entered later; with X parked and the system quiescent no Rflush naming it exists; idle/own/answered tags are answered at quiescence without releasing anything; X's own reply arrives exactly once and is not an error. Non-trivial = X actually parked (timing 'during'/'pipelined') or was answered before the flush ('after').", len(c14Kinds)),
+		Rule:  fmt.Sprintf("directed: %d flushed request kinds (read, write, getattr, 3-component walk parked at component 2, rename parked in RenameAt, renameat parked in a Renamed notification, create, unlinkat, clunk parked in Close, walk onto a bound fid number parked in the replaced file's Close, readdir) x flush arrival {while parked, pipelined right behind, after completion} x {one flush, two flushes of the tag, chain of three, plus a self-flush, plus an idle-tag flush, plus unrelated traffic, plus flush and re-use of a tag that was answered from the protocol-error path, a flush under a recycled tag numerically below its target's}; random: the same dimensions drawn from the tape with varied schedules. Oracle: backend calls attributed to requests via the task that consumed the request's bytes; at the step an Rflush frame completes, no call of the flushed request is between enter and exit and none is entered later; with X parked and the system quiescent no Rflush naming it exists; idle/own/answered tags are answered at quiescence without releasing anything; X's own reply arrives exactly once and is not an error. Non-trivial = X actually parked (timing 'during'/'pipelined') or was answered before the flush ('after').", len(c14Kinds)),
 		Assume: []string{"a backend call is made on behalf of the request whose frame its task consumed last, or whose handler task spawned it"},
 		Real:   []string{"p9.Server", "p9 tag table / handlers", "p9 wire codec"},
 		Stub:   []string{"transport (simnet pipes)", "backend tree (simfs)", "raw 9P peer (refcodec)"},
